@@ -209,14 +209,16 @@ def run(ctx):
 
     hb = ctx.saw(rc.fn(name="hash", self_adt="hash::HashParser"))
     with ctx.rule("C15.R5", "T2+T3", "HashParser::hash: bracket stack pairs the synthetic StartBody/EndRecord; every event is hashed", floor=8) as r:
-        ev = "take_event(events)<Some>.0<Event>.0"
+        def is_ev(d):
+            # the event the parser produced (whatever the iterator local is called)
+            return re.match(r"^take_event\([^()]*\)<Some>\.0<Event>\.0$", d) is not None
 
         def arm_of(c):
             v = [l for d, l, _ in dom_guards(hb, c.block) if d.startswith("disc(take_event(") and d.endswith("<Event>.0)")]
             return v[-1] if v else None
         hashes = [c for c in hb.calls if c.name == "hash" and "ReadEvent" in c.defpath]
-        ev_h = [c for c in hashes if describe_operand(hb, c.args[0]) == ev]
-        syn = [(c, describe_operand(hb, c.args[0])) for c in hashes if describe_operand(hb, c.args[0]) != ev]
+        ev_h = [c for c in hashes if is_ev(describe_operand(hb, c.args[0]))]
+        syn = [(c, describe_operand(hb, c.args[0])) for c in hashes if not is_ev(describe_operand(hb, c.args[0]))]
         pushes = [c for c in hb.calls if c.name == "push" and describe_operand(hb, c.args[0]).endswith("closing_brackets")]
         pops = [c for c in hb.calls if c.name == "pop" and describe_operand(hb, c.args[0]).endswith("closing_brackets")]
         te = [c for c in hb.calls if c.name == "take_event"]
